@@ -104,6 +104,11 @@ class Lexer:
                     result.append("'")
                 elif escape == '"':
                     result.append('"')
+                elif escape == "\n":
+                    pass  # Line continuation: backslash-newline contributes nothing
+                elif escape == "\r":
+                    if self._current() == "\n":
+                        self._advance()
                 elif escape == "0":
                     result.append("\0")
                 elif escape == "b":
@@ -206,7 +211,7 @@ class Lexer:
 
         # Decimal point
         is_float = False
-        if self._current() == "." and self._peek().isdigit():
+        if self._current() == "." and self._fraction_follows():
             is_float = True
             self._advance()  # .
             while self._current() and self._current().isdigit():
@@ -227,6 +232,19 @@ class Lexer:
         if is_float:
             return float(num_str)
         return norm_number(int(num_str))
+
+    def _fraction_follows(self) -> bool:
+        """After the integer digits of a decimal literal, does this '.' belong to it?
+        5.25, 5. and 5.e3 are numbers; in 5.toString the dot is a member access."""
+        nxt = self._peek()
+        if not nxt or nxt.isdigit():
+            return True
+        if nxt in "eE":
+            after = self._peek(2)
+            if after and after in "+-":
+                after = self._peek(3)
+            return bool(after) and after.isdigit()
+        return not (nxt.isalpha() or nxt in "_$")
 
     def _read_identifier(self) -> str:
         """Read an identifier."""
